@@ -419,12 +419,21 @@ def _run(pid, cfg, tier, seed, repo, work, t0):
         ev["coverage"]["oracle_sweep"] = sweep
     # probes: oracles for recorded schedule-dependent findings that no contract can express; they run on every check of
     # the property so that the finding is re-observed (KNOWN-FINDING) or, if it shows a different failure, reported
-    if cfg.get("probes"):
+    if cfg.get("probes") or cfg.get("guards"):
         from . import replay as rp
         known_open = [k for k in load_known() if k.get("property") == pid and k.get("status") == "open"]
         probe_log = []
-        for grp, test in cfg["probes"]:
-            fails, out = rp.run_oracles([grp], repo, work, seed, only=test)
+        # one build + run for all probes and guards of the property (VERIF_ONLY takes a comma list)
+        pg = list(cfg.get("probes", [])) + list(cfg.get("guards", []))
+        grps = []
+        for g, _ in pg:
+            if g not in grps:
+                grps.append(g)
+        fails_all, out = rp.run_oracles(grps, repo, work, seed, only=",".join(tst for _, tst in pg))
+        if out.startswith("ORACLE-BUILD-FAILED"):
+            undecided.append("probes/guards: the executable oracles do not build against this tree: " + " ".join(re.findall(r"error(?:\[E\d+\])?: [^\n]*", out)[:2])[:300])
+        for grp, test in pg:
+            fails = [x for x in fails_all if x.get("test") == test]
             for x in fails:
                 if pid not in x.get("props", []):
                     continue
@@ -444,6 +453,9 @@ def _run(pid, cfg, tier, seed, repo, work, t0):
                     ev["violations"] = ev.get("violations", 0) + 1
                     rc = 1
         ev["coverage"]["finding_probes"] = probe_log
+        if cfg.get("guards"):
+            ev["coverage"]["bounded_guards"] = dict(tests=["%s::%s" % g for g in cfg["guards"]],
+                                                    note="bounded stand-in for code outside the verifier's reach (processor spawn loop, ticker, channels): a fixed list of edge configurations and one scripted workload each, run on the real crate on every check; labelled bounded, never counted as proved")
     if undecided and rc == 0 and cfg.get("replay"):
         # The deductive lane could not bring (part of) the code in front of the verifier.  Bounded stand-in: run the
         # executable oracles of the same contracts on the real crate; a concrete failing input is a violation (never
